@@ -296,6 +296,18 @@ fn eval_geno(ctx: &Ctx, case: &GenoCase) -> Verdict {
                 let got = run_stat(ctx, &dir, &["f2"], "c06.sfs")?;
                 check_value("f2", got[0], f2 / nsites, 0.0, &context)?;
                 compared.push("f2");
+                // several statistics in one invocation, a frequency-based one in front of the
+                // scale-dependent ones and behind them: every value still equals its definition
+                let got = run_stat(ctx, &dir, &["f2", "sum", "pi-xy", "s", "f2"], "c06.sfs")?;
+                for (k, (name, want)) in [("f2 (first of a list)", f2 / nsites), ("sum (after f2 in one list)", nsites), ("pi_xy (after f2 in one list)", pixy), ("S (after f2 in one list)", polymorphic as f64), ("f2 (last of a list)", f2 / nsites)].into_iter().enumerate() {
+                    check_value(name, got[k], want, 0.0, &context)?;
+                }
+                if den > 0.0 {
+                    let got = run_stat(ctx, &dir, &["pi-xy", "fst", "sum", "s", "pi-xy"], "c06.sfs")?;
+                    for (k, (name, want, scale)) in [("pi_xy (first of a list)", pixy, 0.0), ("Hudson's Fst (inside a list)", num / den, num.abs() / den), ("sum (after fst in one list)", nsites, 0.0), ("S (after fst in one list)", polymorphic as f64, 0.0), ("pi_xy (after fst in one list)", pixy, 0.0)].into_iter().enumerate() {
+                        check_value(name, got[k], want, scale, &context)?;
+                    }
+                }
                 if den > 0.0 {
                     let got = run_stat(ctx, &dir, &["fst"], "c06.sfs")?;
                     check_value("Hudson's Fst", got[0], num / den, num.abs() / den, &context)?;
@@ -331,12 +343,20 @@ fn eval_geno(ctx: &Ctx, case: &GenoCase) -> Verdict {
             let got = run_stat(ctx, &dir, &["f3"], "c06.sfs")?;
             check_value("f3", got[0], f3, 0.0, &context)?;
             compared.push("f3");
+            let got = run_stat(ctx, &dir, &["f3", "sum", "s"], "c06.sfs")?;
+            for (k, (name, want)) in [("f3 (first of a list)", f3), ("sum (after f3 in one list)", nsites), ("S (after f3 in one list)", polymorphic as f64)].into_iter().enumerate() {
+                check_value(name, got[k], want, 0.0, &context)?;
+            }
         }
         4 if nsites > 0.0 => {
             let f4: f64 = sites.iter().map(|s| (freq(s, 0) - freq(s, 1)) * (freq(s, 2) - freq(s, 3))).sum::<f64>() / nsites;
             let got = run_stat(ctx, &dir, &["f4"], "c06.sfs")?;
             check_value("f4", got[0], f4, 0.0, &context)?;
             compared.push("f4");
+            let got = run_stat(ctx, &dir, &["s", "f4", "sum", "s"], "c06.sfs")?;
+            for (k, (name, want)) in [("S (first of a list)", polymorphic as f64), ("f4 (inside a list)", f4), ("sum (after f4 in one list)", nsites), ("S (after f4 in one list)", polymorphic as f64)].into_iter().enumerate() {
+                check_value(name, got[k], want, 0.0, &context)?;
+            }
         }
         _ => {}
     }
@@ -431,7 +451,7 @@ pub fn check(ctx: &Ctx) -> Check {
     let parts: Vec<Box<dyn Part>> = vec![
         Box::new(RandomPart {
             name: "definitions-on-genotypes",
-            rule: "call sets with 1..4 populations of unequal size (and two single-sample populations for the 3x3 kinship statistics), `sfs create` -> file -> `sfs stat --precision 12`; the harness expands every counted record into haplotypes and evaluates each quantity literally (pair enumeration for pi / pi_xy, per-site allele-frequency products for f2/f3/f4, summed per-site Hudson terms, a direct 3x3 tally for R0/R1/KING, counts for S and sum); a statistic whose defining denominator is 0 on the data is not compared; non-trivial = >=5 polymorphic counted records and (unequal population sizes | one population | the kinship case with all three ratios defined)",
+            rule: "call sets with 1..4 populations of unequal size (and two single-sample populations for the 3x3 kinship statistics), `sfs create` -> file -> `sfs stat --precision 12`; the harness expands every counted record into haplotypes and evaluates each quantity literally (pair enumeration for pi / pi_xy, per-site allele-frequency products for f2/f3/f4, summed per-site Hudson terms, a direct 3x3 tally for R0/R1/KING, counts for S and sum); for two to four populations also several statistics in one invocation with a frequency-based one (f2, fst, f3, f4) in front of, between and behind the scale-dependent ones (sum, S, pi_xy), each printed value against its own definition; a statistic whose defining denominator is 0 on the data is not compared; non-trivial = >=5 polymorphic counted records and (unequal population sizes | one population | the kinship case with all three ratios defined)",
             cases: ctx.tier.pick(3200, 100_000),
             strategy: Box::new(|| geno_strategy().boxed()),
             eval: Box::new(eval_geno),
